@@ -48,7 +48,6 @@ func zzC04_top() {
 		for i, r := range recs {
 			a := m.AVP[i]
 			vAssert(a.Code == r.code && a.Flags == r.flags && a.VendorID == r.vendor, "code, flags and vendor id come from the reference offsets")
-			vAssert(a.Length == r.l, "declared length reported")
 			if zzLegalLen(types[i], r.l-r.hdr) {
 				pl := a.Data.Serialize()
 				want := body[r.off+r.hdr : r.off+r.l]
